@@ -1363,6 +1363,13 @@ def c_tuple_cmp(m, st, f, a):
     return some(e) if 'partial_cmp' in f else e
 
 
+@contract(r'^<\(.*\) as PartialOrd>::(lt|le|gt|ge)$|^<(ReplacementEnforce|std::cmp::Ordering) as PartialOrd>::(lt|le|gt|ge)$', 3)
+def c_tuple_rel(m, st, f, a):
+    c = _cmp_vals(m, st, a[0], a[1])
+    op = f.rsplit('::', 1)[1]
+    return {'lt': c < 0, 'le': c <= 0, 'gt': c > 0, 'ge': c >= 0}[op]
+
+
 def _eq_vals(m, st, x, y):
     x, y = sv(x), sv(y)
     if isinstance(x, IntV): return binop('Eq', x, y)
